@@ -685,6 +685,28 @@ func (w *World) accessorKey(accessor string) string {
 			}
 		}
 	})
+	if out == "" {
+		// the lookup may be delegated to a helper shared by the accessors, which receives the key as an argument
+		allInstrsLocal(fn, func(in ssa.Instruction) {
+			call, ok := in.(*ssa.Call)
+			if !ok || call.Call.IsInvoke() {
+				return
+			}
+			g := staticCallee(call)
+			if g == nil || g.Blocks == nil || !w.inRoot(g) {
+				return
+			}
+			for _, a := range call.Call.Args {
+				if mi, ok := a.(*ssa.MakeInterface); ok {
+					if n := namedOf(mi.X.Type()); n != nil && n.Obj().Pkg() != nil && n.Obj().Pkg().Path() == rootPath {
+						if _, isStruct := n.Underlying().(*types.Struct); isStruct {
+							out = n.Obj().Name()
+						}
+					}
+				}
+			}
+		})
+	}
 	return out
 }
 
